@@ -19,7 +19,7 @@
    - SetPeer / SetProtocol / SetService / transferAllowedToStandard move the
      whole stat with ReserveForChild / ReleaseForChild and their rollbacks;
    - openConnection's allow-list retry; connLimiter add/rm; gc with IsUnused
-     (which ignores memory).
+     .
    Go int is int64 here; counters other than memory stay tiny and are plain Z;
    memory uses the wrap-around arithmetic of Int64.v. *)
 From Coq Require Import List ZArith Bool Arith.
@@ -475,7 +475,7 @@ Definition limiter_rm (c : config) (l : limiter) (a : ipaddr) : limiter :=
 Record cinfo := mkCinfo {
   ci_in : bool; ci_fd : bool; ci_allow : bool;
   ci_peer : option nat;
-  ci_ip : option ipaddr;     (* connectionScope.ip (invalid for the allow-listed retry) *)
+  ci_ip : option ipaddr;     (* connectionScope.ip *)
   ci_ep : option ipaddr }.   (* IP of connectionScope.endpoint *)
 
 Record sinfo := mkSinfo { si_in : bool; si_peer : nat; si_proto : option nat; si_svc : option nat }.
@@ -562,10 +562,11 @@ Definition open_conn (c : config) (st : state) (i : nat) (inb usefd : bool) (ep 
       | Some _ =>
           let retry := match ep with Some a => allowed c a | None => false end in
           if retry then
-            (* conn.Done(); conn = newAllowListedConnectionScope(...) ; AddConn again *)
-            let st2 := conn_done c st1 i in
+            (* conn.resourceScope.Done() (the limiter count is kept);
+               conn = newAllowListedConnectionScope(..., ip) ; AddConn again *)
+            let st2 := with_scopes st1 (scope_done (scopes st1) (Conn i)) in
             let m3 := new_scope (remove (scopes st2) (Conn i)) (Conn i) (lim_conn c) [ATransient; ASystem] in
-            let ci' := mkCinfo inb usefd true None None ep in
+            let ci' := mkCinfo inb usefd true None ep ep in
             let '(m4, e4) := scope_reserve m3 (Conn i) (KConn inb usefd) in
             let st4 := mkState m4 (nset (conns st2) i ci') (streams st2) (lims st2) in
             match e4 with
@@ -743,12 +744,12 @@ Definition done_op (c : config) (st : state) (t : sid) : state * Z :=
   | _ => (with_scopes st (scope_done (scopes st) t), E_OK)
   end.
 
-(* IsUnused: memory is not looked at *)
+(* IsUnused (memory counts since fix 4443cff) *)
 Definition is_unused (sc : scope) : bool :=
   if s_done sc then true
   else if s_ref sc >? 0 then false
   else (sin (s_use sc) =? 0) && (sout (s_use sc) =? 0) && (cin (s_use sc) =? 0) &&
-       (cout (s_use sc) =? 0) && (fd (s_use sc) =? 0).
+       (cout (s_use sc) =? 0) && (fd (s_use sc) =? 0) && (mem (s_use sc) =? 0).
 
 Definition is_proto (t : sid) : bool := match t with Proto _ => true | _ => false end.
 Definition is_peer (t : sid) : bool := match t with Peer _ => true | _ => false end.
